@@ -153,7 +153,13 @@ void vt_put_cb(void)
 
 void vt_seed(vt_rng_t *r, uint64_t seed)
 {
-    r->s = seed * 0x9E3779B97F4A7C15ull + 0x1234567ull;
+    /* run the seed through the splitmix finalizer: with a linear map of the
+     * seed, seeds c and c+1 would produce the same stream shifted by one */
+    uint64_t z = seed + 0x9E3779B97F4A7C15ull;
+
+    z = (z ^ (z >> 30)) * 0xBF58476D1CE4E5B9ull;
+    z = (z ^ (z >> 27)) * 0x94D049BB133111EBull;
+    r->s = z ^ (z >> 31);
 }
 
 uint64_t vt_u64(vt_rng_t *r)
